@@ -36,9 +36,9 @@ import struct
 
 from . import minissh as M
 
-PHASES = ['K0', 'K1', 'K2', 'E0', 'A0', 'A1', 'C0', 'R0', 'R1', 'M0', 'M1', 'M2', 'M3']
+PHASES = ['K0', 'K1', 'K2', 'E0', 'A0', 'A1', 'C0', 'R0', 'R1', 'M0', 'M1', 'M2', 'M3', 'G1', 'G2']
 CLIENT_PHASES = ['N0', 'N1', 'N2', 'N3', 'N4', 'N5']        # client only: the windows between two methods
-SCRIPT_OF = {'N0': 'C1', 'N1': 'C1', 'N2': 'C1', 'N3': 'C2', 'N4': 'C2', 'N5': 'C2'}
+SCRIPT_OF = {'G1': 'GW', 'G2': 'GR', 'N0': 'C1', 'N1': 'C1', 'N2': 'C1', 'N3': 'C2', 'N4': 'C2', 'N5': 'C2'}
 B_PHASES = ('M0', 'M1', 'M2', 'M3')        # probed in the second scripted session (several auth methods)
 PHASE_NAMES = {
     'K0': 'pre-kexinit', 'K1': 'kex-running', 'K2': 'kex-newkeys-sent', 'E0': 'post-newkeys-pre-service',
@@ -47,7 +47,10 @@ PHASE_NAMES = {
     'M0': 'kbdint-attempt-running', 'M1': 'kbdint-attempt-failed(server)/kbdint-response-sent(client)',
     'M2': 'publickey-attempt-failed(server)/kbdint-attempt-failed(client)',
     'M3': 'password-attempt-failed(server)/authenticated-through-kbdint(client)'}
+WRONG_KEX = b'ecdh-sha2-nistp256'        # MiniSSH lists it first when it "guesses wrong"; the endpoints do not offer it
 PHASE_NAMES.update({
+    'G1': 'kex-running, wrongly guessed first kex packet announced (the probe takes its place)',
+    'G2': 'kex-running, rightly guessed first kex packet announced',
     'N0': "between-methods: 'none' refused, keyboard-interactive callback pending",
     'N1': 'between-methods: keyboard-interactive prompt cancelled after its request, password callback pending',
     'N2': 'between-methods: password change not supported after its request, publickey callback pending',
@@ -134,6 +137,27 @@ class ProbeMini(M.MiniSSH):
                           'pidx': self.nprobes if is_probe else None})
         if is_probe:
             self.nprobes += 1
+
+    guess = None                        # 'wrong' | 'right': first_kex_packet_follows in our FIRST KEXINIT
+
+    def _send_kexinit(self):
+        if not self.guess or self.our_kexinit_payload is not None:
+            return M.MiniSSH._send_kexinit(self)
+        # as MiniSSH._send_kexinit, with first_kex_packet_follows = 1 and, for a wrong guess, a first method the
+        # peer does not offer (so it is not the one negotiated)
+        kex = ([WRONG_KEX] if self.guess == 'wrong' else []) + list(self.kex_algs)
+        if self.strict_kex:
+            kex.append(M.STRICT_C if self.is_client else M.STRICT_S)
+        nl = M.namelist
+        payload = (bytes([M.MSG_KEXINIT]) + self.rng(16) + nl(kex) + nl(self.hostkey_algs) +
+                   nl(self._dir('enc', 'cs')) + nl(self._dir('enc', 'sc')) + nl(self._dir('mac', 'cs')) +
+                   nl(self._dir('mac', 'sc')) + nl(self._dir('comp', 'cs')) + nl(self._dir('comp', 'sc')) +
+                   nl([]) * 2 + b'\1' + M.u32(0))
+        self.our_kexinit_payload = payload
+        self._our_kexinit_out = self._tx_blocked = True
+        self._frame(payload)
+        if self._peer_kexinit_in:
+            self._begin_kex()
 
     def inject_now(self, payloads):
         for p in payloads:
@@ -1148,12 +1172,15 @@ async def run_session(role, strict, phase=None, probes=(), glue=None, pos=None, 
             s.mini.inject_pos = (pos, [bytes(p) for p in probes])
     final = ('completed',)
     script = script or script_of(phase)
+    if script in ('GW', 'GR'):
+        s.mini.guess = 'wrong' if script == 'GW' else 'right'
     fn = {('server', 'A'): script_vs_server, ('client', 'A'): script_vs_client,
           ('server', 'B'): script_vs_server_b, ('client', 'B'): script_vs_client_b,
           ('client', 'C1'): script_vs_client_c1, ('client', 'C2'): script_vs_client_c2,
-          ('client', 'D'): script_vs_client_d}[(role, script)]
+          ('client', 'D'): script_vs_client_d, ('server', 'GW'): script_vs_server, ('client', 'GW'): script_vs_client,
+          ('server', 'GR'): script_vs_server, ('client', 'GR'): script_vs_client}[(role, script)]
     try:
-        await fn(s, phase, [bytes(p) for p in probes])
+        await fn(s, 'K1' if phase in ('G1', 'G2') else phase, [bytes(p) for p in probes])
     except Stop as st:
         final = ('stopped', st.step, st.why)
     # wind down whatever is left so nothing leaks into the next session
@@ -1378,9 +1405,10 @@ async def _batch(jobs):
     for job in jobs:
         role, strict, phase = job['role'], job['strict'], job['phase']
         script = job.get('script') or script_of(phase)
-        key = (role, strict, script)
+        tscript = 'A' if script in ('GW', 'GR') else script
+        key = (role, strict, tscript)
         if key not in twins:
-            twins[key] = await run_session(role, strict, script=script)
+            twins[key] = await run_session(role, strict, script=tscript)
         probes = [bytes.fromhex(p) for p in job['probes']]
         tr = await run_session(role, strict, phase, probes, glue=job.get('glue'), pos=job.get('pos'), script=script)
         v, why = verdict(tr, twins[key])
@@ -1491,7 +1519,10 @@ def classify(payload, to_role, genuine, script='A'):
         if t == 20:
             r._take(16)
             kex = r.get_namelist()
-            cls = 1 if (M.STRICT_C if to_role == 'server' else M.STRICT_S) in kex else 0
+            lists = [kex] + [r.get_namelist() for _ in range(9)]
+            follows = r.get_bool()
+            cls = (1 if (M.STRICT_C if to_role == 'server' else M.STRICT_S) in kex else 0) + \
+                (2 if (follows and kex[:1] != [KEX]) else 0)
         elif t == 30:
             cls = 0 if len(r.get_string()) == 32 else 1
         elif t == 31:
